@@ -66,6 +66,12 @@ class _Cube:
     def values(self):
         return [self._buf[i] for i in range(self._n)]
 
+    def load(self, values):
+        """The bridge's own buffer gets the next point (same object, other content)."""
+        for i, v in enumerate(values):
+            self._buf[i] = float(v)
+        return self
+
 
 def run(LogLikelihood, Prior, n_dims, n_params=None, n_clustering_params=None, wrapped_params=None,
         importance_nested_sampling=True, multimodal=True, const_efficiency_mode=False, n_live_points=400,
@@ -97,13 +103,15 @@ def run(LogLikelihood, Prior, n_dims, n_params=None, n_clustering_params=None, w
     call = {'sampler': 'multinest', 'kwargs': kwargs, 'ndim': int(n_dims), 'loglike': LogLikelihood, 'prior': Prior,
             'records': [], 'files': {}}
     RECORDER.calls.append(call)
+    shared = _Cube([0.0] * int(n_params), n_params) if RECORDER.reuse_buffers else None
     for k, entry in enumerate(RECORDER.script):
         rec = {'entry': k, 'u': None, 'theta': None, 'prior_exc': None, 'loglike': None, 'loglike_exc': None,
                'loglike_type': None}
         call['records'].append(rec)
         if 'u' in entry:
             rec['u'] = [float(v) for v in entry['u']]
-            cube = _Cube(entry['u'], n_params)
+            cube = shared.load(list(entry['u']) + [0.0] * (int(n_params) - len(entry['u']))) if shared is not None \
+                else _Cube(entry['u'], n_params)
             try:
                 Prior(cube, n_dims, n_params)
             except Exception as e:               # recorded; the monitor decides
@@ -111,7 +119,8 @@ def run(LogLikelihood, Prior, n_dims, n_params=None, n_clustering_params=None, w
                 continue
             rec['theta'] = cube.values()
         else:
-            cube = _Cube(entry['theta'], n_params)
+            cube = shared.load(list(entry['theta']) + [0.0] * (int(n_params) - len(entry['theta']))) if shared is not None \
+                else _Cube(entry['theta'], n_params)
             rec['theta'] = cube.values()
         run_entry_hooks(entry, 'arm')
         try:
